@@ -1443,48 +1443,6 @@ def use_facts(F, f, node):
     return base | (inner or set())
 
 
-def unread_to_exit(f, a, d, explained=None):
-    """Is there a CFG path from the assignment `a` of local d to the function exit on which d is neither read nor (before a read) overwritten,
-    and which passes no node for which explained(node) holds (e.g. an addIssue call: the input was rejected, what was read from it no
-    longer matters)?  Returns the list of blocks of one such path (for the report) or None."""
-    cfg = f.cfg()
-    pos = cfg.block_of(a) if cfg is not None else None
-    if pos is None:
-        return None
-
-    def scan(blk, start):
-        for e in blk['el'][start:]:
-            x = f.nodes.get(e)
-            if x is None or x is a:
-                continue
-            if explained is not None and explained(x):
-                return 'stop'
-            if x.get('k') in ('Bin', 'Call') and (x.get('op') == '=' or x.get('opc') == '=') and x.get('c') and x['c'][0].get('k') == 'Ref' and x['c'][0].get('d') == d:
-                if any(y.get('k') == 'Ref' and y.get('d') == d for y in walk(x['c'][1])):
-                    return 'stop'
-                return 'stop'     # overwritten: a matter for lost_values, not for this question
-            if x.get('k') == 'Ref' and x.get('d') == d:
-                p_ = f.parent(x)
-                if p_ is not None and ((p_.get('k') == 'Bin' and p_.get('op') == '=') or (p_.get('k') == 'Call' and p_.get('opc') == '=')) and p_['c'][0] is x:
-                    continue
-                return 'stop'
-        return None
-    if scan(cfg.blocks[pos[0]], pos[1] + 1):
-        return None
-    seen = {}
-    st = [(s_, (pos[0],)) for s_ in cfg.succ[pos[0]]]
-    while st:
-        b, pth = st.pop()
-        if b in seen:
-            continue
-        seen[b] = pth
-        if b == cfg.exit:
-            return list(pth) + [b]
-        if scan(cfg.blocks[b], 0) is None:
-            st.extend((s_, pth + (b,)) for s_ in cfg.succ[b])
-    return None
-
-
 def arm_disagreements(f):
     """Pairs of calls (one in each arm of the same if/else) to the same method on the same PARAMETER of f (the entity being filled in) that
     pass different sets of collected values (locals that are assigned inside a loop of f): [(if node, call a, call b, names only in a, names only in b)].
